@@ -1,2 +1,4 @@
 import Sio.Model.Json
 import Sio.Model.Codec
+import Sio.Model.Rooms
+import Sio.Props.C01
